@@ -481,6 +481,17 @@ class Prov:
                 self._copy_operand(body, env, tl, tp + ("start",), args[0])
                 self._copy_operand(body, env, tl, tp + ("end",), args[1])
             return
+        if re.search(r"ops::RangeInclusive::<Idx>::into_inner$", gen) and len(args) == 1:
+            pl = self._op_place(args[0])
+            for (tl, tp) in targets:
+                if pl is not None:
+                    env.copy(tl, tp + ("0",), pl["l"], place_fields(pl) + ("start",))
+                    env.copy(tl, tp + ("1",), pl["l"], place_fields(pl) + ("end",))
+                else:
+                    labs = self._read_operand(body, env, args[0])
+                    env.write(tl, tp + ("0",), {_extend(x, ("start",)) for x in labs})
+                    env.write(tl, tp + ("1",), {_extend(x, ("end",)) for x in labs})
+            return
         # 2. crate-local callee with a body
         cb = self.facts.body(t.get("res") or "") or self.facts.body(t.get("def") or "")
         if cb is not None and cb.cache_id not in self._inprogress:
